@@ -19,7 +19,7 @@ BIN=$MM/target/release/opaque-sim
 for P in "$@"; do
   name=$(echo "$P" | sed 's#.*/seeded-in/##; s#.*/seeded/##; s#/#-#g; s#.patch.diff##; s#-patch.diff##')
   ( cd $MM/repo && git checkout -q -- . && git apply "$P" ) || { echo -e "$name\tAPPLY-FAIL" >> "$OUT"; continue; }
-  if ! ( cd $MM/verif/sim && cargo build --release --offline >/tmp/mm/build.log 2>&1 ); then echo -e "$name\tBUILD-FAIL" >> "$OUT"; continue; fi
+  if ! ( cd $MM/verif/sim && cargo build --release --offline >$MM/build.log 2>&1 ); then echo -e "$name\tBUILD-FAIL" >> "$OUT"; continue; fi
   line="$name"
   for id in $CHECKS; do
     rm -rf $MM/verif/replays
